@@ -100,6 +100,51 @@ def all_kinds_universe():
         {'name': 'me', 'args': [['a', {'ref': 'KE'}], ['l', {'array': {'ref': 'KE'}}]], 'returns': [], 'style': 'wrapped'}]}]}
 
 
+def chain_universe():
+    """a class that contains itself: a request can be nested as deeply as its size allows"""
+    ns = 'urn:vf:c10c'
+    I = {'prim': 'Integer', 'facets': {}}
+    N = {'name': 'Node', 'ns': ns, 'base': None, 'has_xmldata': False,
+         'fields': [['v', dict(I)], ['next', {'ref': 'Node'}], ['kids', {'array': {'ref': 'Node'}}]]}
+    return {'uid': 9300, 'tns': ns, 'types': [N], 'services': [{'name': 'S', 'methods': [
+        {'name': 'walk', 'args': [['n', {'ref': 'Node'}]], 'returns': [], 'style': 'wrapped'}]}]}
+
+
+def chain_bodies(kind, tns):
+    """valid requests for walk(n) whose argument is a chain of d nodes (d = 40 .. 20000), through `next` and through `kids`;
+    for YAML also a node that is its own successor (a recursive alias)"""
+    out = []
+    for d in (40, 400, 1200, 5000, 20000):
+        for member in ('next', 'kids'):
+            if kind == 'json' or kind == 'yaml':
+                if kind == 'yaml' and d > 1200:
+                    continue
+                inner_open = '{"v": 1, "%s": ' % member + ('[' if member == 'kids' else '')
+                inner_close = (']' if member == 'kids' else '') + '}'
+                body = '{"walk": {"n": ' + inner_open * d + '{"v": 2}' + inner_close * d + '}}'
+                out.append(('deep_chain:%s:%d' % (member, d), body.encode()))
+            elif kind in ('msgpack', 'msgpackrpc'):
+                node_open = b'\x82\xa1v\x01' + bytes([0xa0 + len(member)]) + member.encode() + (b'\x91' if member == 'kids' else b'')
+                arg = node_open * d + b'\x81\xa1v\x02'
+                if kind == 'msgpack':
+                    body = b'\x81\xa4walk\x81\xa1n' + arg
+                else:
+                    body = b'\x94\x00\x01\xa4walk\x91' + arg
+                out.append(('deep_chain:%s:%d' % (member, d), body))
+            elif kind in ('xml', 'soap11', 'soap12'):
+                o = '<v>1</v><%s>' % member + ('<Node>' if member == 'kids' else '')
+                c = ('</Node>' if member == 'kids' else '') + '</%s>' % member
+                inner = '<walk xmlns="%s"><n>' % tns + o * d + '<v>2</v>' + c * d + '</n></walk>'
+                if kind != 'xml':
+                    env = M.S11 if kind == 'soap11' else M.S12
+                    inner = '<e:Envelope xmlns:e="%s"><e:Body>%s</e:Body></e:Envelope>' % (env, inner)
+                out.append(('deep_chain:%s:%d' % (member, d), inner.encode()))
+    if kind == 'yaml':
+        out.append(('recursive_alias', b'walk:\n  n: &a\n    v: 1\n    next: *a\n'))
+        out.append(('recursive_alias_kids', b'walk:\n  n: &a\n    v: 1\n    kids: [*a, *a]\n'))
+    return out
+
+
 def near_literals(text):
     """literals one edit away from a valid one"""
     import re
@@ -758,9 +803,11 @@ def run(spec, R):
     nmut = 60 if tier == 'quick' else 600
     nrand = 60 if tier == 'quick' else 800
     prefix_done = 0
-    for uid in list(range(nuni)) + [9100, 9200]:
-        # (9100: the fixed three-level class tree with defaults, required attributes, bounded repeats; 9200: every primitive kind)
-        ir = universe(spec['seed'], uid) if uid < 9000 else inheritance_universe() if uid == 9100 else all_kinds_universe()
+    for uid in list(range(nuni)) + [9100, 9200, 9300]:
+        # (9100: the fixed three-level class tree with defaults, required attributes, bounded repeats; 9200: every primitive kind;
+        #  9300: a class that contains itself)
+        ir = universe(spec['seed'], uid) if uid < 9000 else inheritance_universe() if uid == 9100 else all_kinds_universe() if uid == 9200 \
+            else chain_universe()
         try:
             T = Target(ir, kind, validator, rng, spec.get('out'))
         except Exception as e:
@@ -768,6 +815,10 @@ def run(spec, R):
             continue
         repro = {'seed': spec['seed'], 'uid': uid, 'kind': kind, 'validator': validator, 'out': spec.get('out')}
         drivers = ('wsgi',) if kind == 'httprpc' else ('server', 'wsgi')
+        if uid == 9300:
+            for i, (cls, body) in enumerate(chain_bodies(kind, ir['tns'])):
+                process(R, T, body, drivers[i % len(drivers)], cls, repro)
+                R.count('deep_chain_requests')
         # random bytes
         for i in range(nrand // nuni):
             n = rng.choice((0, 1, 2, 5, 20, 100, 200))
